@@ -12,6 +12,9 @@ def row_maps(rows, endrows):
     for sid, r in rows.items():
         inv.setdefault(r, sid)
     for sid, r in endrows.items():
+        if sid != "extra":
+            inv.setdefault(r, sid)
+    for r, sid in endrows.get("extra", {}).items():
         inv.setdefault(r, sid)
     return inv
 
